@@ -127,3 +127,23 @@ mutant('C16-solve-no-check', 'C16', 'R16.d', SY, "        self.check() #sanity c
 mutant('C16-domain-not-refused', 'C16', 'R16.x', SY, "        if self.domain is None:\n            raise ValueError(('System has no domain! '\n                              'User must instatiate and assign a domain to the system!'))\n", "")
 twin('C01-twin-pushthrough', ['C01', 'C06'], PR, 'self.totalCorr  = self.IOC.dot(self.OC).dot(self.omega)', 'self.totalCorr  = self.OC.dot(self.IOC).dot(self.omega)')
 twin('C01-twin-temp', ['C01', 'C06', 'C16'], PR, 'self.GammaOut  = self.totalCorr - self.directCorr', 'tmp = self.directCorr * -1.0\n        self.GammaOut  = tmp + self.totalCorr')
+
+OMD = 'pyPRISM/omega/'
+mutant('C11-gauss-exponent', 'C11', 'R11.d', OMD + 'Gaussian.py', '(2*E**(N+1))/N', '(2*E**(N))/N')
+mutant('C11-gauss-width', 'C11', 'R11.d', OMD + 'Gaussian.py', 'E = np.exp(-k*k*self.sigma*self.sigma/6.0)', 'E = np.exp(-k*k*self.sigma*self.sigma/3.0)')
+mutant('C11-fjc-sign', 'C11', 'R11.d', OMD + 'FreelyJointedChain.py', '(1 - E*E - 2*E/N + (2*E**(N+1))/N)', '(1 - E*E + 2*E/N + (2*E**(N+1))/N)')
+mutant('C11-ring-range', 'C11', 'R11.d', OMD + 'GaussianRing.py', 'for i in range(self.length):', 'for i in range(1,self.length):')
+mutant('C11-ring-denominator', 'C11', 'R11.d', OMD + 'GaussianRing.py', '(6.0*self.length)', '(6.0)')
+mutant('C11-koyama-bounds', 'C11', 'R11.m', OMD + 'DiscreteKoyama.py', "        for i in range(1,self.length):\n            for j in range(i+1,self.length+1):\n                n = abs(i - j)\n                self.value += self.koyama_kernel_fourier(k=k,n=n)",
+       "        for i in range(1,self.length):\n            for j in range(i+1,self.length):\n                n = abs(i - j)\n                self.value += self.koyama_kernel_fourier(k=k,n=n)")
+mutant('C11-koyama-prefactor', 'C11', 'R11.m', OMD + 'DiscreteKoyama.py', 'self.value *= 2/self.length', 'self.value *= 1/self.length')
+mutant('C11-koyama-accept-overlap', 'C11', 'R11.v', OMD + 'DiscreteKoyama.py', 'if self.lp<self.lp_min:', 'if self.lp<0.5*self.lp_min:')
+mutant('C11-koyama-no-l-check', 'C11', 'R11.v', OMD + 'DiscreteKoyama.py', 'if self.l > self.sigma/2.0:', 'if self.l > self.sigma/4.0:')
+mutant('C11-koyama-math-array', 'C11', 'R11.s', OMD + 'DiscreteKoyama.py', 'self.epsilon = result.x[0]', 'self.epsilon = result.x')
+mutant('C11-koyama-kernel', 'C11', 'R11.k', OMD + 'DiscreteKoyama.py', '        return np.sin(B*k)/(B*k) * np.exp(-Asq*k*k)\n', '        return np.sin(B*k)/(B) * np.exp(-Asq*k*k)\n')
+mutant('C11-nfjc-axis', 'C11', 'R11.e', OMD + 'NonOverlappingFreelyJointedChain.py', 'Jvals = integrate(Z,x=x,axis=1)', 'Jvals = integrate(Z,x=k,axis=0)')
+mutant('C11-nfjc-mult', 'C11', 'R11.d', OMD + 'NonOverlappingFreelyJointedChain.py', '(self.length - tau) * (omega_t', '(self.length - tau - 1) * (omega_t')
+mutant('C11-trapz-back', 'C11', 'R11.l', OMD + 'NonOverlappingFreelyJointedChain.py', 'integrate = scipy.integrate.simpson', 'integrate = scipy.integrate.simps')
+mutant('C11-singlesite', 'C11', 'R11.d', OMD + 'SingleSite.py', 'self.value = np.ones_like(k)', 'self.value = np.zeros_like(k)')
+twin('C11-twin-gauss', 'C11', OMD + 'Gaussian.py', '(1 - E*E - 2*E/N + (2*E**(N+1))/N)/((1-E)**2.0)', '(1 - E**2 - 2*E/N + 2*E*E**N/N)/(1 - 2*E + E*E)')
+twin('C11-twin-ring-j', 'C11', OMD + 'GaussianRing.py', "            j = 0\n            self.value += np.exp(-ss*kk*abs(i-j)*(self.length-abs(i-j))/(6.0*self.length))", "            self.value += np.exp(-ss*kk*i*(self.length-i)/(6.0*self.length))")
